@@ -231,8 +231,18 @@ def safe_width(spec, X, X2, scale_ref):
         worst = 0.0
         for Z in (X, X2):
             dv = 16 * n * eps * float((Z ** 2).max())
-            win = np.lib.stride_tricks.sliding_window_view(Z, m, axis=0)  # (n-m+1, p, m)
-            vmin = float(win.var(axis=2).min())
+            if spec["cls"] == "CircularBinarySegmentation":
+                # pooled surroundings join non-adjacent rows: every pooled set of k <= L rows holds a
+                # pair (i, j), |i-j| <= L, and its variance is at least (x_i - x_j)^2 / (2k)
+                L = min(int(kw.get("max_interval_length", n)), n)
+                d2 = np.inf
+                for lag in range(1, L):
+                    if lag < n:
+                        d2 = min(d2, float(((Z[lag:] - Z[:-lag]) ** 2).min()))
+                vmin = d2 / (2 * L)
+            else:
+                win = np.lib.stride_tricks.sliding_window_view(Z, m, axis=0)  # (n-m+1, p, m)
+                vmin = float(win.var(axis=2).min())
             if vmin <= 0:
                 return None
             worst = max(worst, p * n * n * dv / (m * vmin))
